@@ -158,7 +158,7 @@ func cmdUnit(eng *Engine, pats []string) {
 		}
 		if u.Script != nil {
 			for _, ob := range u.Script.obs {
-				ok := (ob.Cover && ob.Result == "sat") || (!ob.Cover && ob.Result == "unsat")
+				ok := (ob.Cover && ob.Result != "unsat") || (!ob.Cover && ob.Result == "unsat")
 				mark := "ok  "
 				if !ok {
 					mark = "FAIL"
@@ -167,11 +167,25 @@ func cmdUnit(eng *Engine, pats []string) {
 					continue
 				}
 				fmt.Printf("   %s %-70s %s %s [%s] %s\n", mark, ob.Name, ob.Result, ob.Solver, ob.Pos, ob.Goal)
+				if !ok && ob.queryTxt != "" && dump {
+					os.WriteFile("/tmp/govc_fail_"+sanitize(strings.ReplaceAll(ob.Name, "/", "_"))+".smt2", []byte(ob.queryTxt), 0o644)
+				}
 				if !ok && ob.Model != "" {
 					fmt.Println("        " + strings.ReplaceAll(strings.TrimSpace(ob.Model), "\n", "\n        "))
 				}
 				if !ok && ob.Detail != "" && ob.Result != "sat" {
 					fmt.Println("        " + strings.ReplaceAll(strings.TrimSpace(ob.Detail), "\n", "\n        "))
+				}
+			}
+			if os.Getenv("GOVC_TIMES") != "" {
+				for _, ob := range u.Script.obs {
+					q := u.Script.render(ob)
+					f := tmpFile(cfg, q)
+					out, dt := runSolver(solvers[0], f, 30)
+					os.Remove(f)
+					if dt > 0.5 {
+						fmt.Printf("   TIME %6.2fs %-8s %s  %s\n", dt, firstWord(out), ob.Name, ob.Goal)
+					}
 				}
 			}
 			fmt.Printf("   %d obligations\n", len(u.Script.obs))
@@ -180,11 +194,6 @@ func cmdUnit(eng *Engine, pats []string) {
 			}
 		}
 	}
-}
-
-func cmdCheck(eng *Engine, args []string) int {
-	fmt.Println("not implemented yet")
-	return 2
 }
 
 // matchUnit: "=name" matches the function name exactly (package prefix optional); otherwise substring.
